@@ -227,7 +227,7 @@ def cex_cert(obl, results, env):
 def cex_names(obl, results, env):
     """C14: the network-name matrix, then the certificate corpus, on the real crate"""
     import validate
-    for f in (validate.network_names, validate.cert_corpus):
+    for f in (validate.network_names, validate.claimed_name_grid, validate.cert_corpus):
         try:
             got = _first_fail(f(env))
         except driver.Undecided:
